@@ -1,0 +1,190 @@
+//go:build verif
+
+// Contracts for govc (/verif): C20 "Round links only move forward and never point at their own chain" -- kernel side
+// (kernel/graph.go). The persist store is seen through the assumed interface contracts of
+// storage/zz_contracts_c20_verif.go (ghost store version + observation functions). Comment-only file.
+
+package kernel
+
+//@ spec SV(chain *Chain) mathint = storage.StoreVer(chain.persistStore)
+//@ -- representation invariant of a booted chain (loadState: State and RoundLinks are allocated there; buildChain sets node and persistStore)
+//@ spec ChainOK(chain *Chain) bool = chain != nil && chain.node != nil && chain.State != nil && chain.State.RoundLinks != nil && chain.persistStore != nil
+//@ -- LinkAt: the value the CODE reads for chain.State.RoundLinks[id] (a missing entry reads 0)
+//@ spec LinkAt(chain *Chain, id crypto.Hash) mathint = has(chain.State.RoundLinks, id) ? chain.State.RoundLinks[id] : 0
+//@ -- the in-memory links mirror the durable links of this chain (loadState reads every RoundLinks entry from the store;
+//@ -- a missing map entry and a missing LINK key both read as 0)
+//@ spec MirrorOK(chain *Chain) bool = forall id crypto.Hash :: {has(chain.State.RoundLinks, id)} LinkAt(chain, id) == storage.SLink(SV(chain), chain.ChainId, id)
+
+//@ func (chain *Chain) updateExternal
+//@   property C20
+//@   requires ChainOK(chain) && final != nil && external != nil
+//@   requires [mirror] LinkAt(chain, external.NodeId) == storage.SLink(SV(chain), final.NodeId, external.NodeId)
+//@   requires [strict] strict ==> NodeRep(chain.node) && AllBooted(chain.node) -- determineBestRound
+//@   modifies chain.State.RoundLinks[..], chain.node.chains.m[..]
+//@   ensures [other-chain] err == nil ==> final.NodeId != external.NodeId
+//@   ensures [forward] err == nil ==> LinkAt(chain, external.NodeId) == external.Number && external.Number >= old(LinkAt(chain, external.NodeId))
+//@   ensures [others] forall id crypto.Hash :: {has(chain.State.RoundLinks, id)} id != external.NodeId ==> LinkAt(chain, id) == old(LinkAt(chain, id))
+//@   ensures [rejected] err != nil ==> forall id crypto.Hash :: {has(chain.State.RoundLinks, id)} LinkAt(chain, id) == old(LinkAt(chain, id)) && has(chain.State.RoundLinks, id) == old(has(chain.State.RoundLinks, id))
+//@   -- the only reasons for a non-strict rejection are the two link tests (or a failed store read: ghost RF marks that return);
+//@   -- in particular a reference to the round the link already names (equal number) is NOT a back link
+//@   ghost RF = 0
+//@   at "return err" ghost RF = 1
+//@   ensures [reasons] err != nil && !strict && ghostvar(RF) == 0 ==> final.NodeId == external.NodeId || external.Number < old(LinkAt(chain, external.NodeId))
+
+//@ -- a chain object whose state has been loaded (loadState) and that has a head and a final round
+//@ spec ChainBooted(ec *Chain) bool = ec != nil && ec.State != nil && ec.State.CacheRound != nil && ec.State.FinalRound != nil
+
+//@ -- getOrCreateChain takes the chains lock and may build a new Chain (channels, loadState from the store): out of subset.
+//@ -- ASSUMED: it changes only the chains map (and objects it allocates), and the chain of a node whose round is in the
+//@ -- store is known and booted (boot order: LoadAllChainsAndGraphTimestamp runs before any round is referenced).
+//@ func (node *Node) getOrCreateChain
+//@   opaque
+//@   requires node != nil
+//@   modifies node.chains.m[..]
+//@   ensures ChainBooted(result)
+//@   ensures [keeps-booted] old(AllBooted(node)) ==> AllBooted(node) -- it only ADDS an entry (a newly built, loaded chain) to the chains map
+
+//@ func (chain *Chain) checkReferenceSanity
+//@   property C20
+//@   requires chain != nil && chain.node != nil && ChainBooted(ec) && external != nil
+//@   modifies nothing
+
+//@ -- determineBestRound: read-only search for the best external round (RLock on the chains map, a scan of the accepted node list).
+//@ -- Its answer only decides whether a strict reference is rejected as "too early"; for C20 what matters is that it writes nothing.
+//@ -- [booted]: every node of a cached accepted-node list has a booted chain whose history holds no nil (boot order:
+//@ -- LoadAllChainsAndGraphTimestamp builds and loads the chain of every listed node before the CoSi loops run) -- assumption about callers.
+//@ spec HistBooted(ec *Chain) bool = ChainBooted(ec) && len(ec.State.RoundHistory) < 1152921504606846976 &&
+//@     forall k int :: 0 <= k && k < len(ec.State.RoundHistory) ==> ec.State.RoundHistory[k] != nil
+//@ spec AllBooted(node *Node) bool = node.chains != nil && node.chains.m != nil &&
+//@     forall i, j int :: {node.acceptedNodeStateSequences[i].NodesWithoutState[j]} 0 <= i && i < len(node.acceptedNodeStateSequences) && 0 <= j && j < len(node.acceptedNodeStateSequences[i].NodesWithoutState) ==>
+//@         has(node.chains.m, node.acceptedNodeStateSequences[i].NodesWithoutState[j].IdForNetwork) &&
+//@         HistBooted(node.chains.m[node.acceptedNodeStateSequences[i].NodesWithoutState[j].IdForNetwork])
+//@ func (chain *Chain) determineBestRound
+//@   property C20
+//@   requires chain != nil && chain.node != nil && NodeRep(chain.node)
+//@   requires [booted] AllBooted(chain.node)
+//@   modifies nothing
+//@   loop 0 invariant [booted] AllBooted(chain.node)
+//@   loop 0 invariant [list] IsList(chain.node.acceptedNodeStateSequences, roundTime, nodes)
+
+//@ func historySinceRound
+//@   property C20
+//@   requires forall k int :: 0 <= k && k < len(history) ==> history[k] != nil
+//@   modifies nothing
+//@   ensures [first] len(result) > 0 ==> result[0] != nil
+//@   loop 0 invariant true
+
+//@ -- LinksSame: no entry of the in-memory link map has changed
+//@ spec ExtNode(chain *Chain, h crypto.Hash) crypto.Hash = storage.SRoundNodeId(SV(chain), h)
+//@ spec ExtNumber(chain *Chain, h crypto.Hash) mathint = storage.SRoundNumber(SV(chain), h)
+
+//@ func (chain *Chain) validateNewRound
+//@   property C20
+//@   requires ChainOK(chain) && cache != nil && references != nil && RoundOK(cache)
+//@   requires [mirror] MirrorOK(chain)
+//@   requires [strict] !finalized ==> NodeRep(chain.node) && AllBooted(chain.node)
+//@   panics when chain.ChainId != cache.NodeId
+//@   modifies cache.Snapshots[..], chain.State.RoundLinks[..], chain.node.chains.m[..]
+//@   ensures [shape] (err != nil ==> result0 == nil && !result1) && (result1 ==> finalized && result0 != nil)
+//@   ensures [fresh] result0 != nil ==> fresh(result0)
+//@   ensures [self] result0 != nil ==> references.Self == result0.Hash && result0.NodeId == chain.ChainId && result0.Number == cache.Number
+//@   ensures [nonempty] result0 != nil ==> len(cache.Snapshots) != 0
+//@   ensures [span] result0 != nil ==> result0.Start <= result0.End
+//@   ensures [final] result0 != nil ==> result0.Hash == common.RoundChain(common.RoundSeed(cache.NodeId, cache.Number), cache.Snapshots, len(cache.Snapshots))
+//@   ensures [known] result0 != nil && !result1 ==> storage.SHasRound(SV(chain), references.External) &&
+//@       ExtNode(chain, references.External) != chain.ChainId &&
+//@       LinkAt(chain, ExtNode(chain, references.External)) == ExtNumber(chain, references.External) &&
+//@       ExtNumber(chain, references.External) >= old(LinkAt(chain, ExtNode(chain, references.External)))
+//@   ensures [others] forall id crypto.Hash :: {has(chain.State.RoundLinks, id)} (result0 == nil || result1 || id != ExtNode(chain, references.External)) ==>
+//@       LinkAt(chain, id) == old(LinkAt(chain, id))
+//@   ensures [dummy] result1 ==> !storage.SHasRound(SV(chain), references.External)
+
+//@ -- wakeAllChains: RLock on the chains map, then a non-blocking channel send per chain (select: out of subset). It writes no memory.
+//@ func (node *Node) wakeAllChains
+//@   opaque
+//@   modifies nothing
+
+//@ spec HistoryOK(chain *Chain) bool = len(chain.State.RoundHistory) > 0 && len(chain.State.RoundHistory) < 1152921504606846976 &&
+//@     forall i int :: 0 <= i && i < len(chain.State.RoundHistory) ==> chain.State.RoundHistory[i] != nil
+//@ spec LastHistory(chain *Chain) mathint = chain.State.RoundHistory[len(chain.State.RoundHistory) - 1].Number
+
+//@ func reduceHistory
+//@   property C20
+//@   requires len(rounds) > 0 && forall i int :: 0 <= i && i < len(rounds) ==> rounds[i] != nil
+//@   modifies nothing
+//@   loop 0 invariant fresh(newRounds) && forall i int :: 0 <= i && i < len(rounds) ==> rounds[i] != nil
+
+//@ func (chain *Chain) assignNewGraphRound
+//@   property C20
+//@   requires ChainOK(chain) && final != nil && cache != nil && HistoryOK(chain)
+//@   panics when chain.ChainId != cache.NodeId || chain.ChainId != final.NodeId || U64(final.Number + 1) != cache.Number ||
+//@       (LastHistory(chain) != final.Number && U64(LastHistory(chain) + 1) != final.Number)
+//@   modifies chain.State.CacheRound, chain.State.FinalRound, chain.State.RoundHistory, chain.State.RoundHistory[..cap], chain.node.GraphTimestamp, chain.FinalIndex, chain.FinalCount
+//@   ensures [assigned] chain.State.CacheRound == cache && chain.State.FinalRound == final
+
+//@ -- the external round hash the new head round carries: the requested one, or (dummy path) the one of the round being closed
+//@ spec NewExt(dummy bool, references *common.RoundLink, oldExt crypto.Hash) crypto.Hash = dummy ? oldExt : references.External
+
+//@ func (chain *Chain) startNewRoundAndPersist
+//@   property C20
+//@   requires ChainOK(chain) && cache != nil && cache.References != nil && references != nil && RoundOK(cache) && HistoryOK(chain)
+//@   requires [mirror] MirrorOK(chain)
+//@   requires [strict] !finalized ==> NodeRep(chain.node) && AllBooted(chain.node) -- node membership cache and booted chains: read by determineBestRound on the strict path
+//@   requires [own] chain.ChainId == cache.NodeId -- validateNewRound panics otherwise; callers pass chain.State.CacheRound
+//@   requires [nowrap] cache.Number < 18446744073709551615
+//@   requires [history] LastHistory(chain) == cache.Number || LastHistory(chain) + 1 == cache.Number -- assignNewGraphRound panics otherwise
+//@   requires [store-head] storage.SHasRound(SV(chain), chain.ChainId) && storage.SHasRound(SV(chain), cache.References.External)
+//@   requires [cur-link] storage.SLink(SV(chain), chain.ChainId, ExtNode(chain, cache.References.External)) == ExtNumber(chain, cache.References.External)
+//@   maypanic -- `panic(err)` when the durable write fails: the node aborts (deliberate: memory and store would disagree)
+//@   modifies ghost storever, cache.Snapshots[..], chain.State.RoundLinks[..], chain.node.chains.m[..],
+//@       chain.State.CacheRound, chain.State.FinalRound, chain.State.RoundHistory, chain.State.RoundHistory[..cap], chain.node.GraphTimestamp, chain.FinalIndex, chain.FinalCount
+//@   ensures [shape] (err != nil ==> result1 == nil) && (result1 == nil <==> result0 == nil) && (result2 ==> result1 != nil && finalized)
+//@   ensures [rejected] result1 == nil ==> SV(chain) == old(SV(chain)) && chain.State.CacheRound == old(chain.State.CacheRound) && chain.State.FinalRound == old(chain.State.FinalRound) &&
+//@       (forall id crypto.Hash :: {has(chain.State.RoundLinks, id)} LinkAt(chain, id) == old(LinkAt(chain, id)))
+//@   ensures [next] result1 != nil ==> fresh(result0) && fresh(result1) && result0.NodeId == chain.ChainId && result1.NodeId == chain.ChainId &&
+//@       result1.Number == cache.Number && result0.Number == result1.Number + 1 && len(result0.Snapshots) == 0
+//@   ensures [self-ref] result1 != nil ==> result0.References != nil && result0.References.Self == result1.Hash && references.Self == result1.Hash &&
+//@       result1.Hash == common.RoundChain(common.RoundSeed(cache.NodeId, cache.Number), cache.Snapshots, len(cache.Snapshots))
+//@   ensures [external] result1 != nil ==> result0.References.External == NewExt(result2, references, old(cache.References.External))
+//@   ensures [known] result1 != nil && !result2 ==> old(storage.SHasRound(SV(chain), references.External)) && old(ExtNode(chain, references.External)) != chain.ChainId
+//@   ensures [assigned] result1 != nil ==> chain.State.CacheRound == result0 && chain.State.FinalRound == result1
+//@   ensures [mem-link] result1 != nil && !result2 ==> LinkAt(chain, old(ExtNode(chain, references.External))) == old(ExtNumber(chain, references.External)) &&
+//@       old(ExtNumber(chain, references.External)) >= old(LinkAt(chain, ExtNode(chain, references.External)))
+//@   ensures [durable-head] result1 != nil ==> storage.SRoundNumber(SV(chain), chain.ChainId) == result0.Number && storage.SRoundSelf(SV(chain), chain.ChainId) == result1.Hash &&
+//@       storage.SRoundExternal(SV(chain), chain.ChainId) == result0.References.External &&
+//@       storage.SHasRound(SV(chain), result1.Hash) && storage.SRoundNumber(SV(chain), result1.Hash) == old(storage.SRoundNumber(SV(chain), chain.ChainId))
+//@   ensures [durable-link] result1 != nil ==> let x == old(ExtNode(chain, NewExt(result2, references, cache.References.External))) in
+//@       storage.SLink(SV(chain), chain.ChainId, x) == old(ExtNumber(chain, NewExt(result2, references, cache.References.External))) &&
+//@       storage.SLink(SV(chain), chain.ChainId, x) >= old(storage.SLink(SV(chain), chain.ChainId, x))
+//@   ensures [mirror-kept] result1 != nil ==> MirrorOK(chain)
+
+//@ -- the stored head record of this chain is the in-memory cache round (established by startNewRoundAndPersist/[durable-head], kept by updateEmptyHeadRoundAndPersist)
+//@ spec HeadOK(chain *Chain, cache *CacheRound) bool = storage.SHasRound(SV(chain), chain.ChainId) && storage.SRoundNodeId(SV(chain), chain.ChainId) == chain.ChainId &&
+//@     storage.SRoundNumber(SV(chain), chain.ChainId) == cache.Number && storage.SRoundSelf(SV(chain), chain.ChainId) == cache.References.Self
+
+//@ func (chain *Chain) updateEmptyHeadRoundAndPersist
+//@   property C20
+//@   requires ChainOK(chain) && final != nil && cache != nil && cache.References != nil && references != nil && HistoryOK(chain)
+//@   requires [mirror] MirrorOK(chain)
+//@   requires [strict] strict ==> NodeRep(chain.node) && AllBooted(chain.node)
+//@   requires [own] chain.ChainId == cache.NodeId && chain.ChainId == final.NodeId && final.Number + 1 == cache.Number -- assignNewGraphRound panics otherwise; callers pass chain.State.FinalRound/CacheRound
+//@   requires [history] LastHistory(chain) == final.Number || U64(LastHistory(chain) + 1) == final.Number
+//@   requires [head] HeadOK(chain, cache)
+//@   maypanic -- `panic(err)` when the durable write fails: the node aborts. The other explicit panic (the record read back does not carry its key) is shown unreachable by the hint below.
+//@   hint after (crypto.Hash).HasValue external.Hash.HasValue() && external.Hash == references.External
+//@   modifies ghost storever, cache.References, chain.State.RoundLinks[..], chain.node.chains.m[..],
+//@       chain.State.CacheRound, chain.State.FinalRound, chain.State.RoundHistory, chain.State.RoundHistory[..cap], chain.node.GraphTimestamp, chain.FinalIndex, chain.FinalCount
+//@   ensures [rejected] err != nil ==> SV(chain) == old(SV(chain)) && cache.References == old(cache.References) &&
+//@       chain.State.CacheRound == old(chain.State.CacheRound) && chain.State.FinalRound == old(chain.State.FinalRound) &&
+//@       (forall id crypto.Hash :: {has(chain.State.RoundLinks, id)} LinkAt(chain, id) == old(LinkAt(chain, id)))
+//@   ensures [accepted] err == nil ==> len(cache.Snapshots) == 0 && references.Self == old(cache.References.Self) && cache.References != nil &&
+//@       cache.References.Self == references.Self && cache.References.External == references.External
+//@   ensures [known] err == nil ==> old(storage.SHasRound(SV(chain), references.External)) && old(ExtNode(chain, references.External)) != chain.ChainId
+//@   ensures [assigned] err == nil ==> chain.State.CacheRound == cache && chain.State.FinalRound == final
+//@   ensures [mem-link] err == nil ==> LinkAt(chain, old(ExtNode(chain, references.External))) == old(ExtNumber(chain, references.External)) &&
+//@       old(ExtNumber(chain, references.External)) >= old(LinkAt(chain, ExtNode(chain, references.External)))
+//@   ensures [durable-link] err == nil ==> let x == old(ExtNode(chain, references.External)) in
+//@       storage.SLink(SV(chain), chain.ChainId, x) == old(ExtNumber(chain, references.External)) &&
+//@       storage.SLink(SV(chain), chain.ChainId, x) >= old(storage.SLink(SV(chain), chain.ChainId, x))
+//@   ensures [durable-head] err == nil ==> HeadOK(chain, cache) && storage.SRoundExternal(SV(chain), chain.ChainId) == references.External
+//@   ensures [mirror-kept] err == nil ==> MirrorOK(chain)
